@@ -75,6 +75,9 @@ func funcsOf(text, msg string) ([]string, string) {
 }
 
 func filtered(fn string) bool {
+	if fn == "main.main" {
+		return true // its file name is `_testmain.go` in this binary (see main.go): the library's function-and-file rule
+	}
 	return strings.HasPrefix(fn, "runtime.") || strings.HasPrefix(fn, "testing.") || strings.HasPrefix(fn, errsPkg)
 }
 
